@@ -667,6 +667,7 @@ class ContractHooks(solvers.QuietHooks):
         if isinstance(callee, BoundMethod) and callee.fi.name in ("integrate", "init_extra_solver_state"):
             # validation is over: the solver has been constructed
             self.integration_call = (callee.fi.name, list(args), dict(kwargs))
+            self.solver = callee.self_obj
             raise SimRaise("_IntegrationStarts", "validation phase passed", node, fi)
         if isinstance(callee, BoundMethod) and callee.fi.cls is not None and callee.fi.cls.name == "SDELogqp" \
                 and callee.fi.name != "__init__":
@@ -712,7 +713,7 @@ def make_user_sde(noise_type="diagonal", sde_type="ito", B=4, d=3, m=3, methods=
 
 def eval_check_contract(model, sde=None, y0=None, ts=None, bm="given", method=None, adaptive=False, options=None,
                         names=None, logqp=False, m=3, B=4, dt=None, entry=(SDEINT, "sdeint"), levy="space-time",
-                        hooks=None):
+                        hooks=None, extra_kw=None):
     """Abstractly evaluate the whole validation phase of sdeint / sdeint_adjoint on shape-only tensors: check_contract,
     assert_no_grad, methods.select and the solver's constructor chain run for real; integration itself is cut off."""
     fi = model.func(*entry)
@@ -725,6 +726,7 @@ def eval_check_contract(model, sde=None, y0=None, ts=None, bm="given", method=No
         bm = Obj("bm", attrs={"shape": (Fraction(B), Fraction(m)), "levy_area_approximation": levy})
     kw = dict(sde=sde, y0=y0, ts=ts, bm=bm, method=method, adaptive=adaptive, options=options, names=names, logqp=logqp,
               dt=Fraction(1, 100) if dt is None else dt)
+    kw.update(extra_kw or {})
     try:
         out = it.call_function(fi, [], kw)
         return ("ok", out, hooks)
